@@ -92,7 +92,7 @@ def run(ctx):
             if mode == "Buffered" and c["stallAt"] >= 0:
                 continue        # only the streaming copy can be interrupted by a reset
             cases.append({"mode": mode, "limit": c["limit"], "size": c["size"], "chunk": c["chunk"],
-                          "failAt": c["failAt"], "stallAt": c["stallAt"], "reset": bool(o["reset"]),
+                          "failAt": c["failAt"], "stallAt": c["stallAt"], "fnMode": c["fnMode"], "reset": bool(o["reset"]),
                           "class": o["class"], "forwarded": o["forwarded"], "rate": 0, "burst": 0})
     # rate bound: minimum rate and burst, payload of three bursts; and a reset during the throttled copy
     kb = 1024
